@@ -197,10 +197,13 @@ func init() {
 			for s := 0; s < 27; s++ {
 				u = append(u, fmt.Sprintf("src-styles=%d", s))
 			}
-			return u
+			return append(u, siteUnits("C10")...)
 		},
 		Run: runC10,
 		Check: func(c core.Case) core.Outcome {
+			if sc, ok := siteDecode(c); ok {
+				return siteCheck(sc, nil)
+			}
 			var cs c10Case
 			if err := json.Unmarshal(c, &cs); err != nil {
 				panic(err)
@@ -212,6 +215,10 @@ func init() {
 }
 
 func runC10(ctx *core.Ctx, unit int) {
+	if unit >= 27 {
+		siteRun(ctx, "C10", unit-27)
+		return
+	}
 	var src c10File
 	src.Pkg, src.Prefix = c10SrcPath, "s"
 	x := unit
